@@ -276,6 +276,33 @@ theorem C10_bessel_work_in_bounds (nmax nn1 nn2 : Nat)
   simp only at h ⊢
   omega
 
+/-- … and the lengths are tested as REAL numbers before they are converted to integers (regenerated from the source: the test is
+there and it precedes the first conversion): when it passes, both lengths are far below 2^31, so the integer conversions cannot
+overflow, and the integer lengths fit the work arrays. (Without it a refractive index of 1e10 made NNMAX2 overflow to a negative
+number, pass the integer test and index CJB's arrays with a negative bound: a segmentation fault, repaired in /repo.) -/
+theorem C10_bessel_lengths_no_overflow (nmax : Nat) (t1 t2 : ℝ) (h1 : 0 ≤ t1) (h2 : 0 ≤ t2)
+    (hg : (nmax : ℝ) + t1 ≤ (tmBesselRealGuard.1 : ℝ) ∧ t2 + (tmBesselRealGuard.2.2 : ℝ) ≤ (tmBesselRealGuard.2.1 : ℝ)) :
+    tmBesselRealGuardFirst = true ∧ t1 < 2 ^ 31 ∧ t2 < 2 ^ 31 ∧
+      nmax + ⌊t1⌋₊ ≤ tmBesselWork.1 ∧ nmax + (⌊t2⌋₊ - nmax + 5) ≤ tmBesselWork.2.1 + nmax := by
+  have hr : tmBesselRealGuard = (800, 1200, 5) := by decide
+  have hw : tmBesselWork = (800, 1200, 1200) := by decide
+  have hf : tmBesselRealGuardFirst = true := by decide
+  rw [hr] at hg
+  simp only [Nat.cast_ofNat] at hg
+  obtain ⟨hg1, hg2⟩ := hg
+  have hn : (0 : ℝ) ≤ nmax := Nat.cast_nonneg _
+  have f1 : (⌊t1⌋₊ : ℝ) ≤ t1 := Nat.floor_le h1
+  have f2 : (⌊t2⌋₊ : ℝ) ≤ t2 := Nat.floor_le h2
+  refine ⟨hf, by linarith, by linarith, ?_, ?_⟩
+  · rw [hw]
+    have : ((nmax + ⌊t1⌋₊ : Nat) : ℝ) ≤ 800 := by push_cast; linarith
+    exact_mod_cast this
+  · rw [hw]
+    have : (⌊t2⌋₊ : ℝ) ≤ 1195 := by linarith
+    have h3 : ⌊t2⌋₊ ≤ 1195 := by exact_mod_cast this
+    show nmax + (⌊t2⌋₊ - nmax + 5) ≤ 1200 + nmax
+    omega
+
 /-- non-vacuity: a concrete out-of-range rotation is mapped into range -/
 example : (eulerReduce (-(2:ℝ) / 5) 7).2 ≤ 180 := (C10_euler_in_range _ _).2.2.2
 
